@@ -7,8 +7,14 @@ Reference check (the statement itself): every response an instance gives in the 
 byte for byte, the response it gives when its own request list is replayed alone on a new server.
 Model side (Drive/C16): the response class / step time / number of logged steps of every request.
 The factory style is a probe: a factory building a fresh model per instance vs a factory closing over one
-base model (its clones alias `points` on the pinned tree — C06)."""
-import json, datetime, itertools
+base model (its clones alias `points` on the pinned tree — C06).
+
+Wave 2: instances created and stopped during the history; begin-session with settings; the server-level requests
+/run (with settings), /equations, /agents as one more owner; servers with an external state adapter (FileAdapter):
+a timed-out instance is restored lazily by its next request; shared-base factory style with points-heavy settings
+(read by the `tbl` lookup); concurrent handlers for two different instances (threads, forced overlap) compared with
+the sequential / solo result (Lean: C16_commute)."""
+import json, datetime, itertools, shutil, time
 from common import *
 
 SM, SC = "smC16", "base"
@@ -43,18 +49,32 @@ def make_factory(style, made):
     return factory
 
 
+TIMEOUT = {"weeks": 0, "days": 0, "hours": 1000, "minutes": 0, "seconds": 0, "milliseconds": 0, "microseconds": 0}
+OWN = -1                      # owner index of the server-level requests (/run, /equations, /agents)
+
+
 class Srv:
-    def __init__(self, style):
+    """one BptkServer; `ad`: with a FileAdapter (compressed state) in a scratch directory of its own"""
+    def __init__(self, style, ad=False):
         from BPTK_Py.server import BptkServer
         self.made = []
-        self.app = BptkServer("c16", make_factory(style, self.made))
+        self.ad = ad
+        self.dir = None
+        adapter = None
+        if ad:
+            from BPTK_Py.externalstateadapter import FileAdapter
+            self.dir = scratch_dir("c16ad")
+            adapter = FileAdapter(True, self.dir)
+        self.app = BptkServer("c16", make_factory(style, self.made), external_state_adapter=adapter)
         self.app.logger.disabled = True
         self.c = self.app.test_client()
         self.mgr = self.app._instance_manager
+        self.uids = {}
 
     def new_instances(self, k):
-        r = self.c.post("/start-instances", json={"instances": k, "timeout": {"weeks": 0, "days": 0, "hours": 1000, "minutes": 0,
-                                                                             "seconds": 0, "milliseconds": 0, "microseconds": 0}})
+        if k == 0:
+            return []
+        r = self.c.post("/start-instances", json={"instances": k, "timeout": TIMEOUT})
         return json.loads(r.data)["instance_uuids"]
 
     def close(self):
@@ -63,23 +83,51 @@ class Srv:
                 b.destroy()
             except Exception:
                 pass
+        if self.dir:
+            shutil.rmtree(self.dir, ignore_errors=True)
+
+
+def settings_of(s):
+    """s: None | ('c', v) | ('p', v)"""
+    if s is None:
+        return {}
+    if s[0] == "c":
+        return {SM: {SC: {"constants": {"constant": float(s[1])}}}}
+    return {SM: {SC: {"points": {"tbl": [[0, float(s[1])], [100, float(s[1])]]}}}}
 
 
 def setting_body(s):
-    """s: None | ('c', v) | ('p', v)"""
-    if s is None:
-        return {"settings": {}}
-    if s[0] == "c":
-        return {"settings": {SM: {SC: {"constants": {"constant": float(s[1])}}}}}
-    return {"settings": {SM: {SC: {"points": {"tbl": [[0, float(s[1])], [100, float(s[1])]]}}}}}
+    return {"settings": settings_of(s)}
 
 
-def do(srv, uid, op):
+def do(srv, label, op, client=None):
     """perform one request; returns (class token as Drive/C16 prints it, canonical body)"""
-    c = srv.c
+    c = client or srv.c
     k = op[0]
+    uid = srv.uids.get(label)
+    if k == "c":
+        r = c.post("/start-instance", json={"timeout": TIMEOUT})
+        if r.status_code == 200:
+            srv.uids[label] = json.loads(r.data)["instance_uuid"]
+            return "created", (200, "created")          # the body holds the uuid: not compared
+        return f"http{r.status_code}", (r.status_code, canon_body(r.data))
+    if k == "R":
+        body = {"scenario_managers": [SM], "scenarios": [SC], "equations": EQS}
+        if op[1] is not None:
+            body["settings"] = settings_of(op[1])
+        r = c.post("/run", json=body)
+        return ("ran" if r.status_code == 200 else f"http{r.status_code}"), (r.status_code, canon_body(r.data))
+    if k == "q":
+        r = c.post("/equations", json={"scenario_manager": SM, "scenario": SC})
+        return ("names" if r.status_code == 200 else f"http{r.status_code}"), (r.status_code, canon_body(r.data))
+    if k == "a":
+        r = c.post("/agents", json={"scenarioManager": SM, "scenario": SC})
+        return ("noagents" if (r.status_code == 500 and b"have agents" in r.data) else f"http{r.status_code}"), (r.status_code, canon_body(r.data))
     if k == "b":
-        r = c.post(f"/{uid}/begin-session", json={"scenario_managers": [SM], "scenarios": [SC], "equations": EQS})
+        body = {"scenario_managers": [SM], "scenarios": [SC], "equations": EQS}
+        if len(op) > 1 and op[1] is not None:
+            body["settings"] = settings_of(op[1])
+        r = c.post(f"/{uid}/begin-session", json=body)
         tok = "started" if r.status_code == 200 else None
     elif k == "s":
         r = c.post(f"/{uid}/run-step", json=setting_body(op[1]))
@@ -92,6 +140,8 @@ def do(srv, uid, op):
                 tok = "step:?"
         elif b"no data" in r.data:
             tok = "nodata"
+        elif srv.ad and r.status_code == 500 and b"Internal Server Error" in r.data:
+            tok = "saveerr"             # no session: the handler fails while externalising the (absent) session state
     elif k == "r":
         r = c.get(f"/{uid}/session-results")
         tok = None
@@ -133,50 +183,226 @@ def canon_body(data):
         return txt
 
 
+def sval(x):
+    return int(x[1])
+
+
 def op_code(i, op):
-    if op[0] == "s" and op[1] is not None:
-        return f"{i}s{int(op[1][1])}"
+    i = max(i, 0)
+    if op[0] in ("s", "b", "R") and len(op) > 1 and op[1] is not None:
+        return f"{i}{op[0]}{sval(op[1])}"
     return f"{i}{op[0]}"
 
 
 def op_str(i, op):
-    if op[0] == "s" and op[1] is not None:
-        return f"{i}:s({op[1][0]}={op[1][1]})"
-    return f"{i}:{op[0]}"
+    who = "srv" if i == OWN else str(i)
+    if op[0] in ("s", "b", "R") and len(op) > 1 and op[1] is not None:
+        return f"{who}:{op[0]}({op[1][0]}={op[1][1]})"
+    return f"{who}:{op[0]}"
 
 
-def run_interleaving(srv, k, seq):
-    """seq: list of (instance index, op).  Returns per-op (token, body)."""
-    uids = srv.new_instances(k)
-    return [do(srv, uids[i], op) for i, op in seq]
+def n_initial(lists):
+    """initial instances = the lists that do not start with a creation (they come first)"""
+    k0 = sum(1 for l in lists if not (l and l[0][0] == "c"))
+    assert all(not (l and l[0][0] == "c") for l in lists[:k0]) and all(l and l[0][0] == "c" for l in lists[k0:]), lists
+    return k0
 
 
-def gen_list(rng, long):
-    """request list of one instance (mostly valid)."""
-    ops = [("b",)]
+def run_interleaving(srv, k0, seq):
+    """seq: list of (owner index, op); owners 0..k0-1 exist initially.  Returns per-op (token, body)."""
+    for i, u in enumerate(srv.new_instances(k0)):
+        srv.uids[i] = u
+    return [do(srv, i, op) for i, op in seq]
+
+
+# ---------------------------------------------------------------- concurrent handlers (different instances)
+class Gate:
+    """Wraps the bptk methods the handlers call, so that a handler can be held inside (before or after its bptk
+    call) while another handler — for a DIFFERENT instance — runs."""
+    METHODS = ("begin_session", "run_step", "session_results", "end_session", "try_lock", "unlock")
+
+    def __init__(self):
+        self.hooks = {}
+
+    def wrap_mgr(self, mgr):
+        """gate point right after the handler obtained its instance object from the InstanceManager"""
+        if getattr(mgr, "_c16_gated", False):
+            return
+        mgr._c16_gated = True
+        orig = mgr.get_instance
+        def wrapped(uuid):
+            inst = orig(uuid)
+            h = self.hooks.get((uuid, "got"))
+            if h: h()
+            return inst
+        mgr.get_instance = wrapped
+
+    def wrap(self, b):
+        if getattr(b, "_c16_gated", False):
+            return
+        b._c16_gated = True
+        for name in self.METHODS:
+            orig = getattr(b, name)
+            def make(orig=orig, name=name):
+                kind = "lock" if name == "try_lock" else "unlock" if name == "unlock" else "call"
+                def wrapped(*a, **kw):
+                    h = self.hooks.get((id(b), "before-" + kind))
+                    if h: h()
+                    try:
+                        return orig(*a, **kw)
+                    finally:
+                        h = self.hooks.get((id(b), "after-" + kind))
+                        if h: h()
+                return wrapped
+            setattr(b, name, make())
+
+
+# "<inner>-inside-<outer>-<gate point>": the outer handler is held at the gate point while the inner handler runs completely.
+# gate points: after-get-instance (InstanceManager.get_instance returned), after-lock (bptk.try_lock returned: run-step only),
+# before-call / after-call (the handler's bptk call: begin_session, run_step, session_results, end_session), before-unlock
+SCHEDULES = ("B-inside-A-before-call", "B-inside-A-after-call", "A-inside-B-before-call", "A-inside-B-after-call", "both-released-together",
+             "B-inside-A-after-get-instance", "A-inside-B-after-get-instance", "B-inside-A-after-lock", "A-inside-B-after-lock",
+             "B-inside-A-before-unlock")
+
+
+def run_concurrent(srv, gate, la, opa, lb, opb, schedule):
+    """requests opa (instance la) and opb (instance lb) in two threads with a forced overlap of their handlers"""
+    import threading
+    out = {}
+    def fire(tag, label, op):
+        try:
+            out[tag] = do(srv, label, op, client=srv.app.test_client())
+        except Exception as e:          # pragma: no cover
+            out[tag] = ("exception", repr(e))
+    objs = {}
+    for tag, label in (("A", la), ("B", lb)):
+        ent = srv.mgr._instances.get(srv.uids.get(label))
+        objs[tag] = ent["instance"] if ent else None
+        if objs[tag] is not None:
+            gate.wrap(objs[tag])
+    gate.wrap_mgr(srv.mgr)
+    tA = threading.Thread(target=fire, args=("A", la, opa))
+    tB = threading.Thread(target=fire, args=("B", lb, opb))
+    inside, release = threading.Event(), threading.Event()
+    gate.hooks = {}
+    if schedule == "both-released-together":
+        bar = threading.Barrier(2, timeout=5)
+        def meet():
+            try:
+                bar.wait()
+            except threading.BrokenBarrierError:
+                pass
+        for tag in ("A", "B"):
+            if objs[tag] is not None:
+                gate.hooks[(id(objs[tag]), "before-call")] = meet
+        tA.start(); tB.start(); tA.join(30); tB.join(30)
+    else:
+        outer, inner = ("A", "B") if schedule.startswith("B-inside-A") else ("B", "A")
+        phase = schedule.split("-", 3)[3]
+        threads = {"A": tA, "B": tB}
+        def hold():
+            inside.set(); release.wait(20)
+        if schedule.endswith("after-get-instance"):
+            gate.hooks[(srv.uids.get(la if outer == "A" else lb), "got")] = hold
+        elif objs[outer] is not None:
+            gate.hooks[(id(objs[outer]), phase)] = hold
+        threads[outer].start()
+        while not inside.is_set() and threads[outer].is_alive():
+            time.sleep(0.0005)
+        overlapped = inside.is_set()
+        threads[inner].start(); threads[inner].join(30)
+        release.set(); threads[outer].join(30)
+        out["overlapped"] = overlapped
+    gate.hooks = {}
+    return out
+
+
+def gen_conc_case(rng):
+    """two instances with sessions and settings; one pair of requests runs concurrently"""
+    def lst():
+        ops = [("b", rand_setting(rng, 2))]
+        for _ in range(rng.range(2, 4)):
+            r = rng.below(8)
+            ops.append(("s", rand_setting(rng, 2)) if r < 5 else ("r",) if r < 6 else ("e",) if r < 7 else ("b", rand_setting(rng, 2)))
+        ops.append(("s", None)); ops.append(("r",))
+        return ops
+    lists = [lst(), lst()]
+    pa, pb = rng.below(len(lists[0]) - 1), rng.below(len(lists[1]) - 1)
+    return lists, pa, pb, rng.choice(SCHEDULES)
+
+
+def check_conc_case(srvs, solo, style, ad, lists, pa, pb, schedule, rng):
+    """prefixes sequentially (random merge), the pair concurrently, the rest sequentially; everything compared with the solo replays.
+    returns (seq as executed in the order A, B for the model, tokens, diffs, overlapped)"""
+    srv = srvs.new(style, ad)
+    gate = Gate()
+    for i, u in enumerate(srv.new_instances(2)):
+        srv.uids[i] = u
+    pre = random_merge(rng, [lists[0][:pa], lists[1][:pb]])
+    post = random_merge(rng, [lists[0][pa + 1:], lists[1][pb + 1:]])
+    got = [do(srv, i, op) for i, op in pre]
+    res = run_concurrent(srv, gate, 0, lists[0][pa], 1, lists[1][pb], schedule)
+    got += [res.get("A", ("missing", None)), res.get("B", ("missing", None))]
+    got += [do(srv, i, op) for i, op in post]
+    seq = pre + [(0, lists[0][pa]), (1, lists[1][pb])] + post
+    diffs, cnt = [], [0, 0]
+    for pos, (i, op) in enumerate(seq):
+        exp = solo.get(srvs, style, ad, lists[i])[cnt[i]]
+        cnt[i] += 1
+        if got[pos] != exp:
+            diffs.append((pos, i, got[pos], exp))
+    return seq, [t for t, _ in got], diffs, res.get("overlapped", True)
+
+
+# ---------------------------------------------------------------- generators
+def rand_setting(rng, none_weight=1):
+    r = rng.below(4 + none_weight)
+    if r < none_weight:
+        return None
+    return ("c", rng.range(2, 9)) if r < none_weight + 2 else ("p", rng.range(2, 9))
+
+
+def gen_list(rng, long, created=False, points_heavy=False):
+    """request list of one instance (mostly valid).  `created`: the instance is created during the history."""
+    def sett(w=1):
+        s = rand_setting(rng, w)
+        if points_heavy and s is not None and rng.chance(1, 2):
+            s = ("p", s[1])
+        return s
+    ops = [("c",)] if created else []
+    ops.append(("b", sett(2)))
     n = rng.range(2, 6 if long else 3)
     for _ in range(n):
         r = rng.below(12)
         if r < 3:
             ops.append(("s", None))
-        elif r < 6:
-            ops.append(("s", ("c", rng.range(2, 9))))
         elif r < 8:
-            ops.append(("s", ("p", rng.range(2, 9))))
+            ops.append(("s", sett(0)))
         elif r < 9:
             ops.append(("r",))
         elif r < 10:
             ops.append(("k",))
         elif r < 11:
-            ops += [("e",), ("b",)] if rng.chance(1, 2) else [("e",), ("s", None)]
+            ops += [("e",), ("b", sett(2))] if rng.chance(1, 2) else [("e",), ("s", None)]
         else:
             ops.append(("x",) if rng.chance(1, 2) else ("t",))
     if rng.chance(1, 3):
-        ops.append(rng.choice([("x",), ("t",)]))
-        ops.append(rng.choice([("s", None), ("k",), ("r",), ("b",)]))
+        ops.append(rng.choice([("x",), ("t",), ("t",)]))
+        ops.append(rng.choice([("s", None), ("k",), ("r",), ("b", sett(2)), ("s", sett(0))]))
+        if rng.chance(1, 2):
+            ops.append(("s", None))
     ops.append(("r",))
-    if rng.chance(1, 8):
+    if rng.chance(1, 8) and not created:
         ops = ops[1:]                    # no begin-session at all
+    return ops
+
+
+def gen_own(rng):
+    """requests to the server-level bptk object"""
+    ops = []
+    for _ in range(rng.range(1, 3)):
+        r = rng.below(6)
+        ops.append(("R", rand_setting(rng, 1)) if r < 4 else ("q",) if r < 5 else ("a",))
     return ops
 
 
@@ -194,97 +420,107 @@ def merges(lists):
     return rec([0] * len(lists))
 
 
-def random_merge(rng, lists):
-    pos = [0] * len(lists)
+def random_merge(rng, lists, own=()):
+    """random interleaving; `own` (server-level requests) gets owner index OWN"""
+    ls = list(lists) + ([list(own)] if own else [])
+    pos = [0] * len(ls)
     out = []
     while True:
-        live = [i for i, l in enumerate(lists) if pos[i] < len(l)]
+        live = [i for i, l in enumerate(ls) if pos[i] < len(l)]
         if not live:
             return out
         i = rng.choice(live)
-        out.append((i, lists[i][pos[i]])); pos[i] += 1
+        out.append((OWN if (own and i == len(lists)) else i, ls[i][pos[i]])); pos[i] += 1
 
 
 class Solo:
-    """responses of a request list replayed alone (cached per style and list)."""
+    """responses of one owner's request list replayed alone on a new server of the same kind (cached)."""
     def __init__(self):
         self.cache = {}
 
-    def get(self, srvs, style, ops):
-        key = (style, repr(ops))
+    def get(self, srvs, style, ad, ops, own=False):
+        key = (style, ad, own, repr(ops))
         if key not in self.cache:
-            srv = srvs.solo(style)
-            self.cache[key] = run_interleaving(srv, 1, [(0, o) for o in ops])
+            srv = srvs.new(style, ad)
+            if own:
+                self.cache[key] = run_interleaving(srv, 0, [(OWN, o) for o in ops])
+            else:
+                k0 = 0 if (ops and ops[0][0] == "c") else 1
+                self.cache[key] = run_interleaving(srv, k0, [(0, o) for o in ops])
+            srvs.retire(srv)
         return self.cache[key]
 
 
 class Servers:
     def __init__(self):
         self.all = []
-        self.main = {}
 
-    def get(self, style):
-        """shared server of the style; a sharedBase server is replaced for every case (its base model is state)."""
-        if style == "fresh":
-            if style not in self.main:
-                self.main[style] = self._new(style)
-            return self.main[style]
-        return self._new(style)
-
-    def solo(self, style):
-        return self._new(style)
-
-    def _new(self, style):
-        s = Srv(style)
+    def new(self, style, ad=False):
+        s = Srv(style, ad)
         self.all.append(s)
-        if len(self.all) > 12:                     # keep the number of live monitor threads small
-            old = [x for x in self.all[:-6] if x not in self.main.values()]
-            for x in old:
+        if len(self.all) > 10:                     # keep the number of live monitor threads small
+            for x in self.all[:-5]:
                 x.close()
                 self.all.remove(x)
         return s
 
+    def retire(self, s):
+        s.close()
+        if s in self.all:
+            self.all.remove(s)
+
     def close(self):
         for s in self.all:
             s.close()
+        self.all = []
 
 
-def check_case(srvs, solo, style, lists, seq):
-    """returns (tokens, diffs) — diffs: list of (position in seq, instance, got, expected)"""
-    srv = srvs.get(style)
-    got = run_interleaving(srv, len(lists), seq)
+def check_case(srvs, solo, style, ad, lists, own, seq):
+    """returns (tokens, diffs) — diffs: list of (position in seq, owner, got, expected)"""
+    srv = srvs.new(style, ad)
+    got = run_interleaving(srv, n_initial(lists), seq)
+    srvs.retire(srv)
     diffs = []
-    cnt = [0] * len(lists)
+    cnt = {}
     for pos, (i, op) in enumerate(seq):
-        exp = solo.get(srvs, style, lists[i])[cnt[i]]
-        cnt[i] += 1
+        exp = solo.get(srvs, style, ad, list(own) if i == OWN else lists[i], own=(i == OWN))[cnt.get(i, 0)]
+        cnt[i] = cnt.get(i, 0) + 1
         if got[pos] != exp:
             diffs.append((pos, i, got[pos], exp))
     return [t for t, _ in got], diffs
 
 
-def shrink(srvs, solo, style, lists, seq):
-    """greedy deletion of requests while some response still differs from the solo replay."""
+def split_seq(seq, n):
+    return [[op for i, op in seq if i == k] for k in range(n)], [op for i, op in seq if i == OWN]
+
+
+def shrink(srvs, solo, style, ad, lists, own, seq):
+    """greedy deletion of requests (creations are kept) while some response still differs from the solo replay."""
     seq = list(seq)
+    n = len(lists)
     changed = True
     while changed:
         changed = False
         for j in range(len(seq)):
+            if seq[j][1][0] == "c":
+                continue
             cand = seq[:j] + seq[j + 1:]
-            ls = [[op for i, op in cand if i == n] for n in range(len(lists))]
-            if cand and check_case(srvs, solo, style, ls, cand)[1]:
-                seq, lists, changed = cand, ls, True
+            ls, ow = split_seq(cand, n)
+            if cand and check_case(srvs, solo, style, ad, ls, ow, cand)[1]:
+                seq, lists, own, changed = cand, ls, ow, True
                 break
-    return lists, seq
+    return lists, own, seq
 
 
 def probe_style(srvs, solo, style):
-    """instancesShareNothing for the factory style: settings of both kinds through instance 0, steps of instance 1."""
-    lists = [[("b",), ("s", ("c", 5)), ("s", ("p", 7)), ("s", None)], [("b",), ("s", None), ("s", None), ("r",)]]
-    seq = [(0, lists[0][0]), (1, lists[1][0]), (0, lists[0][1]), (0, lists[0][2]), (1, lists[1][1]), (0, lists[0][3]),
-           (1, lists[1][2]), (1, lists[1][3])]
-    toks, diffs = check_case(srvs, solo, style, lists, seq)
-    return not diffs, (lists, seq, diffs)
+    """instancesShareNothing for the factory style: settings of both kinds through instance 0 (begin-session and
+    run-step) and through the server-level /run, steps of instance 1 — lookups of `tbl` read the points."""
+    lists = [[("b", ("p", 6)), ("s", ("c", 5)), ("s", ("p", 7)), ("s", None)], [("b", None), ("s", None), ("s", None), ("s", None), ("r",)]]
+    own = [("R", ("p", 3))]
+    seq = [(0, lists[0][0]), (1, lists[1][0]), (0, lists[0][1]), (1, lists[1][1]), (0, lists[0][2]), (1, lists[1][2]), (OWN, own[0]),
+           (0, lists[0][3]), (1, lists[1][3]), (1, lists[1][4])]
+    toks, diffs = check_case(srvs, solo, style, False, lists, own, seq)
+    return not diffs, (lists, own, seq, diffs)
 
 
 def gen_lean(facts):
@@ -296,9 +532,16 @@ def gen_lean(facts):
         if facts[st]:
             out.append(f"theorem holds_{st} : C16_full cfg_{st} := C16_full_of_good cfg_{st} (by decide)")
             out.append(f"#print axioms holds_{st}")
+            out.append(f"theorem commute_{st} (s : Server) (a b : Nat × Req) (h : owner a ≠ owner b) :\n"
+                       f"    (step cfg_{st} (step cfg_{st} s b).1 a).2 = (step cfg_{st} s a).2 ∧\n"
+                       f"    (step cfg_{st} (step cfg_{st} s a).1 b).2 = (step cfg_{st} s b).2 :=\n"
+                       f"  ⟨(C16_commute cfg_{st} (by decide) s a b h).1, (C16_commute cfg_{st} (by decide) s a b h).2.1⟩")
+            out.append(f"#print axioms commute_{st}")
         else:
             out.append(f"theorem violated_{st} : ¬ C16_full cfg_{st} := C16_witness_shared cfg_{st} (by decide)")
             out.append(f"#print axioms violated_{st}")
+            out.append(f"theorem violated_run_{st} : ¬ C16_full cfg_{st} := C16_witness_shared_run cfg_{st} (by decide)")
+            out.append(f"#print axioms violated_run_{st}")
     out += ["#print axioms C16_partial", "#print axioms C16_stop_timeout_local", "end Bptk.C16.Gen", ""]
     return "\n".join(out)
 
@@ -307,10 +550,12 @@ FINDING_KEY = {"fresh": "cross-talk-fresh-model-factory", "sharedBase": "cross-t
 
 
 def run(chk):
+    import contextlib, io
     quiet_bptk_logging()
     srvs = Servers()
     try:
-        _run(chk, srvs)
+        with contextlib.redirect_stdout(io.StringIO()):      # FileAdapter prints "Error: ..." when a state file is absent
+            _run(chk, srvs)
     finally:
         srvs.close()
 
@@ -324,78 +569,126 @@ def _run(chk, srvs):
     ok, why = chk.prove(gen_lean(facts))
     chk.cov["trusted_base"] = [
         "Lean 4.33 kernel; axioms propext, Classical.choice, Quot.sound (audited per run via #print axioms)",
-        "hand-written model lean/Bptk/Core/C16.lean: per-instance state machine (alive, settings knob, session clock/stock/log) + one process-wide cell; tied to /repo by the probe of both factory styles and by the class/time/log-length comparison of every generated history; numeric bodies are compared real-vs-real (interleaved vs solo replay)",
+        "hand-written model lean/Bptk/Core/C16.lean: per-instance state machine (alive, settings knob, session clock/stock/log, externalised session), the server-level bptk object, one process-wide cell; tied to /repo by the probe of both factory styles and by the class/time/log-length comparison of every generated history; numeric bodies are compared real-vs-real (interleaved vs solo replay)",
         "Flask routing, JSON encoding, the SD simulation itself (C01/C09) are not modelled: the model's stock values are schematic",
+        "concurrent handlers: the theorem (C16_commute) is at request-handler granularity; the forced thread overlaps inside the handlers are harness evidence compared with the sequential result",
     ]
     chk.assumptions = [
-        "instances are addressed by uuid; the harness maps uuids to creation order",
+        "instances are addressed by uuid; the harness maps uuids to labels in creation order",
         "a timeout is produced by moving the instance's last-access time into the past and triggering a sweep (GET /metrics); which request triggers a sweep is C17's subject",
         "config.configuration (module-level dict shared by every bptk object) is written only by bptk.__init__ with a configuration argument; the factories used pass none",
+        "the external state adapter is a FileAdapter (compressed) with a directory per server; its encoding is C19's subject",
     ]
     rng = chk.rng.fork("c16")
-    cases = []              # (style, lists, seq)
-    dist = {"exhaustive_merges": 0, "sampled_merges": 0}
-    # exhaustive merges of short lists
+    cases = []              # dicts: style, ad, lists, own, seq
+    dist = {"exhaustive_merges": 0, "sampled_merges": 0, "with_adapter": 0, "with_creation": 0, "with_server_level": 0,
+            "sharedBase": 0, "points_settings": 0, "begin_session_settings": 0, "restorations": 0}
+    def add_case(st, ad, lists, own, seq, kind):
+        cases.append({"style": st, "ad": ad, "lists": lists, "own": own, "seq": seq})
+        dist[kind] += 1
+        dist["with_adapter"] += ad
+        dist["with_creation"] += any(l and l[0][0] == "c" for l in lists)
+        dist["with_server_level"] += bool(own)
+        dist["sharedBase"] += st == "sharedBase"
+        dist["points_settings"] += any(len(o) > 1 and o[1] is not None and o[1][0] == "p" for _, o in seq)
+        dist["begin_session_settings"] += any(o[0] == "b" and len(o) > 1 and o[1] is not None for _, o in seq)
+        if ad:
+            for l in lists:
+                dist["restorations"] += any(l[j][0] == "t" and any(o[0] == "s" for o in l[:j]) and j + 1 < len(l) for j in range(len(l)))
+    # exhaustive merges of short lists (server-level requests as a third owner; creation and adapter in some)
     short_sets = [
-        [[("b",), ("s", ("c", 5)), ("s", None)], [("b",), ("s", None), ("r",)]],
-        [[("b",), ("s", ("p", 4)), ("x",)], [("b",), ("s", ("c", 3)), ("s", None)]],
-        [[("b",), ("s", None), ("t",), ("s", None)], [("b",), ("s", ("c", 2)), ("k",), ("r",)]],
+        (False, [[("b", None), ("s", ("c", 5)), ("s", None)], [("b", None), ("s", None), ("r",)]], []),
+        (False, [[("b", ("p", 3)), ("s", ("p", 4)), ("x",)], [("b", None), ("s", ("c", 3)), ("s", None)]], []),
+        (True, [[("b", None), ("s", ("p", 6)), ("t",), ("s", None)], [("b", ("p", 2)), ("s", None), ("k",), ("r",)]], []),
+        (False, [[("b", ("p", 5)), ("s", None), ("s", None)], [("c",), ("b", None), ("s", None)]], [("R", ("p", 8))]),
     ]
     if not chk.quick:
         short_sets += [
-            [[("b",), ("s", ("c", 5)), ("e",), ("b",), ("s", None)], [("b",), ("s", ("p", 6)), ("s", None), ("r",)]],
-            [[("b",), ("s", ("c", 5))], [("b",), ("s", ("p", 2))], [("b",), ("s", None), ("r",)]],
-            [[("s", None), ("b",), ("s", ("c", 9)), ("x",), ("k",)], [("b",), ("s", None), ("s", None), ("r",)]],
+            (False, [[("b", None), ("s", ("c", 5)), ("e",), ("b", ("p", 4)), ("s", None)], [("b", None), ("s", ("p", 6)), ("s", None), ("r",)]], []),
+            (False, [[("b", None), ("s", ("c", 5))], [("b", None), ("s", ("p", 2))], [("b", ("p", 7)), ("s", None), ("r",)]], []),
+            (False, [[("s", None), ("b", None), ("s", ("c", 9)), ("x",), ("k",)], [("b", None), ("s", None), ("s", None), ("r",)]], []),
+            (True, [[("b", ("c", 4)), ("s", ("p", 3)), ("t",), ("r",), ("s", None)], [("c",), ("b", None), ("s", None), ("t",), ("s", None)]], []),
+            (True, [[("b", None), ("s", None), ("s", None)], [("b", ("p", 9)), ("s", None)]], [("R", ("c", 4)), ("q",), ("R", None)]),
         ]
-    for lists in short_sets:
-        ms = list(merges(lists))
+    for ad, lists, own in short_sets:
+        ms = list(merges(lists + ([own] if own else [])))
+        if own:
+            ms = [[(OWN if i == len(lists) else i, o) for i, o in m] for m in ms]
         if chk.quick:
-            ms = rng.shuffle(ms)[:25]
+            ms = rng.shuffle(ms)[:16]
+        elif len(ms) > 400:
+            ms = rng.shuffle(ms)[:400]
         for seq in ms:
             for st in STYLES:
-                if st == "sharedBase" and (chk.quick and rng.chance(2, 3)):
+                if chk.quick and rng.chance(1, 2):
                     continue
-                cases.append((st, lists, seq)); dist["exhaustive_merges"] += 1
-    for n in range(150 if chk.quick else 1200):
+                add_case(st, ad, lists, own, seq, "exhaustive_merges")
+    for n in range(110 if chk.quick else 1000):
         k = rng.range(2, 3)
-        lists = [gen_list(rng, long=not chk.quick) for _ in range(k)]
-        st = "fresh" if rng.chance(3, 4) else "sharedBase"
-        cases.append((st, lists, random_merge(rng, lists))); dist["sampled_merges"] += 1
-    chk.cov["rule"] = ("per-instance request lists over {begin-session, run-step (no setting | constant | points), session-results, "
-                       "end-session, keep-alive, stop, timeout}; k = 2..3 instances; all merges of fixed short lists "
-                       "(sampled in quick) and seeded random merges of generated lists; both factory styles; a case = factory style + "
-                       "the interleaved request sequence; non-trivial = at least two instances each apply a setting or one is stopped/timed out")
-    req = []
-    real = []
-    first = {}
-    kinds = {}
-    for st, lists, seq in cases:
-        toks, diffs = check_case(srvs, solo, st, lists, seq)
-        cfgv = "1" if facts[st] else "0"
-        req += [f"cfg {cfgv}", f"run {len(lists)} " + (",".join(op_code(i, op) for i, op in seq) or "-")]
+        st = "fresh" if rng.chance(1, 2) else "sharedBase"
+        ncreated = rng.below(2) if rng.chance(1, 2) else 0
+        lists = [gen_list(rng, long=not chk.quick, created=(j >= k - ncreated), points_heavy=(st == "sharedBase")) for j in range(k)]
+        own = gen_own(rng) if rng.chance(1, 3) else []
+        add_case(st, rng.chance(1, 3), lists, own, random_merge(rng, lists, own), "sampled_merges")
+    chk.cov["rule"] = ("per-owner request lists over {start-instance (creation during the history), begin-session (no setting | constant | points), "
+                       "run-step (no setting | constant | points), session-results, end-session, keep-alive, stop, timeout (+ lazy restoration from the FileAdapter "
+                       "by the next request), /run (no setting | constant | points), /equations, /agents}; k = 2..3 instances + the server-level object; servers with and "
+                       "without external state adapter; all merges of fixed short lists (sampled in quick) and seeded random merges of generated lists; both factory styles "
+                       "(the shared-base style with points-heavy settings read by a lookup); concurrent-handler cases: one pair of requests to different instances runs in two "
+                       "threads with a forced overlap inside the handlers; a case = factory style + adapter + the request sequence; "
+                       "non-trivial = at least two owners apply a setting or one is stopped/timed out/created")
+    req, real, first, kinds = [], [], {}, {}
+    for cs in cases:
+        st, ad, lists, own, seq = cs["style"], cs["ad"], cs["lists"], cs["own"], cs["seq"]
+        toks, diffs = check_case(srvs, solo, st, ad, lists, own, seq)
+        req += [f"cfg {'1' if facts[st] else '0'}", f"run {n_initial(lists)} {1 if ad else 0} " + (",".join(op_code(i, op) for i, op in seq) or "-")]
         real += ["ok", ",".join(toks)]
         for _, op in seq:
             kinds[op[0]] = kinds.get(op[0], 0) + 1
-        nsett = sum(1 for l in lists if any(o[0] == "s" and o[1] is not None for o in l))
-        chk.case((st, tuple(op_str(i, op) for i, op in seq)),
-                 nontrivial=nsett >= 2 or any(o[0] in ("x", "t") for l in lists for o in l),
-                 sample={"style": st, "seq": [op_str(i, op) for i, op in seq]} if len(seq) > 8 else None)
+        nsett = sum(1 for l in lists + [own] if any(len(o) > 1 and o[1] is not None for o in l))
+        chk.case((st, ad, tuple(op_str(i, op) for i, op in seq)),
+                 nontrivial=nsett >= 2 or any(o[0] in ("x", "t", "c") for l in lists for o in l),
+                 sample={"style": st, "adapter": ad, "seq": [op_str(i, op) for i, op in seq]} if len(seq) > 8 else None)
         if diffs and st not in first:
-            first[st] = (lists, seq)
+            first[st] = (ad, lists, own, seq)
+    # concurrent handlers for different instances
+    conc = {"cases": 0, "overlapped": 0, "by_schedule": {}}
+    conc_first = {}
+    for n in range(24 if chk.quick else 240):
+        lists, pa, pb, schedule = gen_conc_case(rng)
+        st = "fresh" if rng.chance(1, 2) else "sharedBase"
+        ad = rng.chance(1, 3)
+        seq, toks, diffs, overlapped = check_conc_case(srvs, solo, st, ad, lists, pa, pb, schedule, rng)
+        conc["cases"] += 1; conc["overlapped"] += bool(overlapped)
+        conc["by_schedule"][schedule] = conc["by_schedule"].get(schedule, 0) + 1
+        req += [f"cfg {'1' if facts[st] else '0'}", f"run 2 {1 if ad else 0} " + ",".join(op_code(i, op) for i, op in seq)]
+        real += ["ok", ",".join(toks)]
+        chk.case((st, ad, schedule, pa, pb, tuple(op_str(i, op) for i, op in seq)), nontrivial=True)
+        if diffs and st not in conc_first and st not in first:
+            conc_first[st] = (ad, lists, pa, pb, schedule, seq, diffs)
     dist["request_kinds"] = kinds
+    dist["concurrent_handler_cases"] = conc
     chk.cov["input_distribution"] = dist
-    chk.cov["traces_validated_against_impl"] = len(cases)
+    chk.cov["traces_validated_against_impl"] = len(cases) + conc["cases"]
     for st in STYLES:
         if not facts[st] and st not in first:
-            first[st] = (pdetail[st][0], pdetail[st][1])
-    for st, (lists, seq) in first.items():
-        lists, seq = shrink(srvs, solo, st, lists, seq)
-        toks, diffs = check_case(srvs, solo, st, lists, seq)
+            first[st] = (False, pdetail[st][0], pdetail[st][1], pdetail[st][2])
+    for st, (ad, lists, own, seq) in first.items():
+        lists, own, seq = shrink(srvs, solo, st, ad, lists, own, seq)
+        toks, diffs = check_case(srvs, solo, st, ad, lists, own, seq)
         pos, i, got, exp = diffs[0]
         chk.add_finding(FINDING_KEY[st],
-                        f"{st} factory, requests {[op_str(a, o) for a, o in seq]}: response {pos} (instance {i}) is "
-                        f"{str(got[1])[:160]} but alone the instance answers {str(exp[1])[:160]}",
-                        {"style": st, "seq": [[a, list(o)] for a, o in seq], "k": len(lists), "position": pos,
+                        f"{st} factory{' with state adapter' if ad else ''}, requests {[op_str(a, o) for a, o in seq]}: response {pos} "
+                        f"(owner {'server-level' if i == OWN else i}) is {str(got[1])[:160]} but alone the owner is answered {str(exp[1])[:160]}",
+                        {"style": st, "ad": ad, "seq": [[a, list(o)] for a, o in seq], "n": len(lists), "position": pos,
+                         "got": got, "solo": exp})
+    for st, (ad, lists, pa, pb, schedule, seq, diffs) in conc_first.items():
+        pos, i, got, exp = diffs[0]
+        chk.add_finding("concurrent-handlers-" + FINDING_KEY[st],
+                        f"{st} factory{' with state adapter' if ad else ''}: requests {op_str(0, lists[0][pa])} and {op_str(1, lists[1][pb])} handled concurrently "
+                        f"({schedule}) inside {[op_str(a, o) for a, o in seq]}: response {pos} (instance {i}) is {str(got[1])[:160]} "
+                        f"but sequentially / alone {str(exp[1])[:160]}",
+                        {"style": st, "ad": ad, "concurrent": {"lists": [[list(o) for o in l] for l in lists], "pa": pa, "pb": pb, "schedule": schedule},
                          "got": got, "solo": exp})
     model = drive("C16", req)
     diff = next((j for j, (a, b) in enumerate(zip(model, real)) if a != b), None)
@@ -404,7 +697,7 @@ def _run(chk, srvs):
     if not ok:
         chk.add_finding("obligation", f"proof obligations of C16 no longer check: {why}",
                         {"theorem": "Bptk.C16.Gen.* / Bptk.Props.C16", "detail": why}, found_input=False)
-    if diff is not None and not first:
+    if diff is not None and not first and not conc_first:
         chk.add_finding("correspondence", f"model and implementation disagree on request line {req[diff]!r}",
                         {"correspondence": "Drive/C16 vs BptkServer", "request": req[diff], "model": model[diff] if diff < len(model) else None,
                          "impl": real[diff] if diff < len(real) else None}, found_input=False)
@@ -412,20 +705,29 @@ def _run(chk, srvs):
         chk.notes["model_diff_under_violation"] = {"request": req[diff], "model": model[diff], "impl": real[diff]}
 
 
+def tup(o):
+    return tuple(tuple(x) if isinstance(x, list) else x for x in o)
+
+
 def replay(path):
     quiet_bptk_logging()
     r = json.load(open(path))["replay"]
-    if "seq" not in r:
-        print("nothing to replay (no concrete history stored):", r)
-        return 1
-    seq = [(a, tuple(tuple(x) if isinstance(x, list) else x for x in o)) for a, o in r["seq"]]
-    lists = [[op for i, op in seq if i == n] for n in range(r["k"])]
     srvs = Servers()
     try:
-        toks, diffs = check_case(srvs, Solo(), r["style"], lists, seq)
+        if "concurrent" in r:
+            cc = r["concurrent"]
+            lists = [[tup(o) for o in l] for l in cc["lists"]]
+            seq, toks, diffs, _ = check_conc_case(srvs, Solo(), r["style"], r.get("ad", False), lists, cc["pa"], cc["pb"], cc["schedule"], Rng(1))
+        elif "seq" in r:
+            seq = [(a, tup(o)) for a, o in r["seq"]]
+            lists, own = split_seq(seq, r.get("n", r.get("k", 0)))
+            toks, diffs = check_case(srvs, Solo(), r["style"], r.get("ad", False), lists, own, seq)
+        else:
+            print("nothing to replay (no concrete history stored):", r)
+            return 1
     finally:
         srvs.close()
-    print("style:", r["style"], "requests:", [op_str(a, o) for a, o in seq])
+    print("style:", r["style"], "adapter:", r.get("ad", False), "requests:", [op_str(a, o) for a, o in seq])
     print("responses:", toks)
     print("differences from the solo replays on the current tree:", [(p, i, str(g)[:100], str(e)[:100]) for p, i, g, e in diffs])
     return 1 if diffs else 0
